@@ -867,12 +867,72 @@ def rule_c19_commands(prog: Program, col: Collector) -> None:
     col.check(ok, sref.where(), sref.short, "save() calls each SAVERS entry with (model_path / name, unique_name, output)",
               construct="save-dispatch", necessity="the JSON saver must receive the run's name and output")
     disp = [e for e in calls if len(e.args) == 3]
+
+    def name_guard(test: Term, name_param: Term) -> bool:
+        """``<name> in <mapping loaded with json.load(s)>`` (possibly with `.keys()`), conjoined with existence tests of the file."""
+        conj = list(test[2]) if test[0] == "bool" and test[1] == "and" else [test]
+        hit = False
+        for c in conj:
+            if c[0] == "cmp" and c[1] == "in" and c[2] == name_param and any(is_call_to(x, "json.load", "json.loads") for x in subterms(c[3])):
+                hit = True
+            elif c[0] == "call" and c[1][0] == "attr" and c[1][2] in ("exists", "is_file"):
+                continue
+            else:
+                return False
+        return hit
+
+    name_p = ("param", sp[1])
     early = [e for e in sft.of_kind("return") if disp and e.seq < disp[0].seq]
-    guarded = [f for e in disp for f in e.ctx if f[0] == "if"]
-    col.check(not early and not guarded, sref.where(early[0].node if early else None), sref.short,
-              "every saver is called unconditionally for every save (no early exit before the dispatch loop)", construct="save-dispatch-conditional",
-              necessity="the skip-if-present decision belongs to the JSON saver (exact name in the loaded mapping): a shortcut on another artefact "
+
+    def guards_of(ev) -> list:
+        return [(f[1], f[2]) for f in ev.ctx if f[0] == "if"]
+    bad_early = [e for e in early if not (guards_of(e) and all(pol is True for _t, pol in guards_of(e)) and name_guard(guards_of(e)[-1][0], name_p)
+                                           and all(t[0] == "call" and t[1][0] == "attr" and t[1][2] in ("exists", "is_file") for t, _p in guards_of(e)[:-1]))]
+    guarded = [f for e in disp for f in e.ctx if f[0] == "if" and not (len(f) > 4 and f[4] == "implied")]
+    col.check(not bad_early and not guarded, sref.where(bad_early[0].node if bad_early else None), sref.short,
+              "the only early exit before the dispatch loop is `name already stored in data.json`; the savers themselves are called unconditionally",
+              construct="save-dispatch-conditional",
+              necessity="the skip decision is about the exact name in the loaded mapping: a shortcut on another artefact "
                         "(e.g. an existing plot file) silently drops a run saved under a new name")
+    # saving under an existing name changes nothing: every saver that writes must sit behind the existing-name test
+    dispatcher_guard = any(e not in bad_early for e in early)
+    for e in entries:
+        q = prog.resolve(e.module, e.value)
+        r = prog.find_func(q) if q else None
+        if r is None:
+            continue
+        rft = fterms(prog, r)
+        rp = r.positional_params()
+        own = False
+        if len(rp) >= 2:
+            for ev in rft.of_kind("return"):
+                gs = guards_of(ev)
+                if gs and any(name_guard(t, ("param", rp[1])) or (t[0] == "cmp" and t[1] == "in" and t[2] == ("param", rp[1])) for t, pol in gs if pol is True):
+                    writes_before = [w for w in rft.calls() if w.seq < ev.seq and (w.name in ("savefig", "mkdir", "write_text", "write_bytes", "dump") or is_global(w.func, "json.dump", "numpy.save"))]
+                    own = own or not writes_before
+        col.check(own or dispatcher_guard, r.where(), r.short,
+                  f"SAVERS[{e.key!r}] only runs for a name that is not stored yet (its own skip-if-present guard, or the dispatcher's)", construct=f"saver-unguarded:{e.key}",
+                  necessity="saving under an existing name must change nothing: an unguarded plot saver overwrites the earlier run's figure with the new data while data.json keeps "
+                            "the old entry (and the directory-creating saver raises FileExistsError afterwards)")
+    # distinct names must give distinct files: with_suffix() replaces everything after the last dot of the NAME
+    nsfx = 0
+    for e in entries:
+        q = prog.resolve(e.module, e.value)
+        r = prog.find_func(q) if q else None
+        if r is None or len(r.positional_params()) < 2:
+            continue
+        rft = fterms(prog, r)
+        namep = ("param", r.positional_params()[1])
+        for ev in rft.calls("with_suffix"):
+            last = ev.recv[3] if ev.recv is not None and ev.recv[0] == "bin" and ev.recv[1] == "/" else ev.recv      # the final path component
+            if last is not None and has_subterm(last, namep):
+                nsfx += 1
+                col.violation(r.where(ev.node), r.short, f"suffix-replaces-name:{e.key}",
+                              f"{short(ev.recv, 50)}.with_suffix(...) replaces the part of the run name after its last dot",
+                              "two different names that differ only after the last dot - the default names are ISO timestamps with microseconds - map to the same file: "
+                              "saving under a new name overwrites an artefact of an earlier entry", rule="REG-V")
+    if nsfx == 0:
+        col.ok(sref.where(), "run.save.SAVERS", "no saver derives a file name from the run name with with_suffix()", rule="REG-V")
     mk = [e for e in sft.calls("mkdir")]
     col.check(bool(mk), sref.where(), sref.short, "save() creates the model directory when missing",
               construct="save-mkdir", necessity="first save into a fresh directory must succeed")
